@@ -250,6 +250,9 @@ WEIGHTS = (dict(tw_penalty=0.0), dict(capacity_penalty=0.0, sync_penalty=0.0), d
 
 N_VEHICLES = [2]
 POS = ((1.0, 0.0), (0.0, 1.0), (1.0, 1.0))
+# geometry 1: two customers at one address on the way past the third, no service times (arrival times tie exactly)
+POS_COLOCATED = ((2.0, 0.0), (2.0, 0.0), (1.0, 0.0))
+GEOMETRY = [0]
 WIN = ((0.0, float("inf")), (0.0, 2.0), (3.0, 5.0))
 
 
@@ -265,7 +268,10 @@ def make_instance(code):
         demand = (1.0, 2.0)[d % 2]
         win = WIN[(d // 2) % 3]
         req = (1, 2)[d // 6]
-        custs.append(vrp.Customer(i + 1, POS[i][0], POS[i][1], demand, win[0], win[1], float(i % 2), req))
+        if GEOMETRY[0] == 1:
+            custs.append(vrp.Customer(i + 1, POS_COLOCATED[i][0], POS_COLOCATED[i][1], demand, win[0], win[1], 0.0, req))
+        else:
+            custs.append(vrp.Customer(i + 1, POS[i][0], POS[i][1], demand, win[0], win[1], float(i % 2), req))
     vehicles = [vrp.Vehicle(i, cap) for i in range(N_VEHICLES[0])]
     return custs, vehicles
 
@@ -358,6 +364,7 @@ def vrp_bfs(r, code, depth):
 def _vrp_chunk(params, lo, hi):
     depth, off, stride = params[:3]
     N_VEHICLES[0] = params[3] if len(params) > 3 else 2
+    GEOMETRY[0] = params[4] if len(params) > 4 else 0
     r = new_result()
     for idx in range(lo, hi):
         vrp_bfs(r, off + idx * stride, depth)
@@ -375,6 +382,7 @@ def _solve_chunk(params, lo, hi):
     lns = importlib.import_module("solvor.lns")
     stride, scripted = params
     N_VEHICLES[0] = 2
+    GEOMETRY[0] = 0
     r = new_result()
     real = (vrp.Random, lns.Random)
     try:
@@ -477,6 +485,8 @@ def jobs(tier, seed):
     js.append(Job(f"vrp_operator_bfs_depth{depth}", (N_INST + stride - 1 - (seed % stride)) // stride if q else N_INST, _vrp_chunk, (depth, seed % stride if q else 0, stride), chunk=4, describe=f"BFS over the exported operators from VRPState.from_problem; instances code = offset + k*{stride} of the {N_INST}-instance family (offset rotates with VERIF_SEED)"))
     st3 = 97 if q else 11
     js.append(Job(f"vrp_operator_bfs_3vehicles_depth{depth}", N_INST // st3, _vrp_chunk, (depth, seed % st3, st3, 3), chunk=2, describe="same BFS with three vehicles (a customer can end up on a vehicle outside a stale sync assignment)"))
+    stc = 61 if q else 7
+    js.append(Job(f"vrp_operator_bfs_colocated_depth{depth}", N_INST // stc, _vrp_chunk, (depth, seed % stc, stc, 2, 1), chunk=2, describe="same BFS on the geometry with two customers at one address and no service times (exact ties between consecutive arrival times)"))
     sst = 24 if q else 4
     js.append(Job("solve_vrptw_scripted", N_INST // sst, _solve_chunk, (sst, True), chunk=2, describe="solve_vrptw max_iter 1..2, RNG answers enumerated to 2 deviations"))
     js.append(Job("solve_vrptw_seeded", N_INST // sst, _solve_chunk, (sst, False), chunk=4, describe="solve_vrptw max_iter 40, seeds 0..3, run twice"))
@@ -487,6 +497,8 @@ def replay(v):
     w = v["witness"]
     r = new_result()
     N_VEHICLES[0] = len(w["customers"]) and (3 if w.get("vehicles") == 3 else 2) if "customers" in w else 2
+    # the geometry is recognisable from the recorded customers: two customers at one address
+    GEOMETRY[0] = 1 if "customers" in w and len(w["customers"]) > 2 and w["customers"][1][1:3] == w["customers"][2][1:3] else 0
     if v["function"] == "solve_job_shop":
         run_jobshop_instance(r, [tuple(tuple(o) for o in job) for job in w["jobs"]], True)
     elif v["function"] == "solve_vrptw":
